@@ -302,6 +302,21 @@ func evalConf(cf *sdl.Conf, cfg map[string]string) confExpect {
 			e.Violate = x < 3 // the struct's own field tag: A validate:"min=3"
 		}
 		return e
+	case "typePrefix":
+		// an untagged nil pointer to a struct whose type names its prefix: bound like a
+		// required prefix field
+		a, okA := cfg[cf.Keys[0]+".a"]
+		b, okB := cfg[cf.Keys[0]+".b"]
+		if !okA && !okB {
+			e.Missing = true
+			e.Value = "<nil>"
+			return e
+		}
+		if a == "" {
+			a = "0"
+		}
+		e.Value = fmt.Sprintf("&{%s %s}", a, b)
+		return e
 	case "prefixStruct":
 		a, okA := cfg[cf.Keys[0]+".a"]
 		b, okB := cfg[cf.Keys[0]+".b"]
@@ -456,37 +471,81 @@ func (w *World) CheckConfigStages(o *Obs) []Violation {
 		}
 	}
 	if o.OK() && !lateOpen && !hasPoints {
-		// lazy components: created by the lookup that followed Run, over the configuration of that moment
-		for _, x := range exps {
-			l, looked := o.Lookup[x.inst]
-			if !x.lazyT || !looked {
-				continue
+		// lazy components: created by a lookup that followed Run, over the configuration of that
+		// moment. Round 1 right after Run; then the application may change a key (PostSet) and
+		// look the components up once more (round 2): one that was created in round 1 stays as
+		// it is, one whose creation failed is attempted again over the new configuration.
+		cfg2 := map[string]string{}
+		for k, x := range cfgLate {
+			cfg2[k] = x
+		}
+		if p.PostSetKey != "" {
+			cfg2[p.PostSetKey] = strconv.Itoa(p.PostSetVal)
+		}
+		exprMenu := func(m string) bool {
+			return m == "sum" || m == "mul" || m == "nested" || m == "sumDef" || m == "indirect"
+		}
+		judge := func(inst string, t *sdl.Type, round int, cfgR map[string]string, l LookupObs, got map[string]string) (created, judged bool) {
+			bad, why := false, ""
+			for _, cf := range t.Config {
+				e := evalConf(cf, cfgR)
+				if e.Open {
+					return !l.Err, false
+				}
+				if e.Missing && !cf.Optional || e.Violate && cf.Menu != "prefixStruct" {
+					if !bad {
+						why = fmt.Sprintf("%s (value %q, validate=%s, missing=%v)", cf.Field, e.Value, cf.Validate, e.Missing)
+					}
+					bad = true
+				}
 			}
-			e := evalConf(x.cf, cfgLate)
-			if e.Open {
-				continue
-			}
-			bad := e.Missing && !x.cf.Optional || e.Violate && x.cf.Menu != "prefixStruct"
 			if l.Panic != "" {
-				vs = append(vs, v("C18", "config-panic", x.inst, "the lookup of lazy component "+x.inst+" panicked: "+l.Panic))
-				continue
+				vs = append(vs, v("C18", "config-panic", inst, fmt.Sprintf("lookup round %d of lazy component %s panicked: %s", round, inst, l.Panic)))
+				return false, true
 			}
 			if bad {
 				if !l.Err {
-					vs = append(vs, v("C18", "constraint-violated-but-created", x.inst+"."+x.cf.Field, fmt.Sprintf("lazy component %s was created by a lookup after Run although %s (value %q, validate=%s, missing=%v) must make its creation fail; configuration at that time %v", x.inst, x.cf.Field, e.Value, x.cf.Validate, e.Missing, cfgLate)))
+					vs = append(vs, v("C18", "constraint-violated-but-created", inst, fmt.Sprintf("lazy component %s was created by lookup round %d after Run although %s must make its creation fail; configuration at that time %v", inst, round, why, cfgR)))
+				}
+				return !l.Err, true
+			}
+			if l.Err {
+				vs = append(vs, v("C18", "constraints-hold-but-creation-failed", inst, fmt.Sprintf("lookup round %d of lazy component %s failed although every value bound over the configuration of that moment satisfies its constraint and no required value is missing: %v", round, inst, cfgR)))
+				return false, true
+			}
+			for _, cf := range t.Config {
+				e := evalConf(cf, cfgR)
+				if g, ok := got[cf.Field]; ok && g != e.Value {
+					oracle := "bound-value-differs"
+					if exprMenu(cf.Menu) {
+						oracle = "expression-result-differs"
+					}
+					vs = append(vs, v("C18", oracle, inst+"."+cf.Field, fmt.Sprintf("lazy component %s was created by lookup round %d after Run; %s (%s %v default=%q) holds %q, the menu evaluator gives %q over the configuration of that moment %v", inst, round, cf.Field, cf.Menu, cf.Keys, cf.Default, g, e.Value, cfgR)))
+				}
+			}
+			return true, true
+		}
+		for _, i := range p.Instances {
+			t := w.Types[i.Type]
+			l1, looked := o.Lookup[i.ID]
+			if !t.Lazy || !looked || len(t.Config) == 0 {
+				continue
+			}
+			created, judged := judge(i.ID, t, 1, cfgLate, l1, o.CfgLate[i.ID])
+			l2, looked2 := o.Lookup2[i.ID]
+			if !looked2 || !judged {
+				continue
+			}
+			if created {
+				// published: round 2 returns the same instance, untouched
+				if l2.Err || l2.Panic != "" || l2.Target != l1.Target {
+					vs = append(vs, v("C18", "published-lazy-component-changed", i.ID, fmt.Sprintf("lazy component %s was created in lookup round 1; round 2 returned target=%q err=%v panic=%q instead of the same instance %q", i.ID, l2.Target, l2.Err, l2.Panic, l1.Target)))
+				} else if fmt.Sprint(o.CfgLate2[i.ID]) != fmt.Sprint(o.CfgLate[i.ID]) {
+					vs = append(vs, v("C18", "published-lazy-component-changed", i.ID, fmt.Sprintf("the configuration fields of %s changed between lookup rounds although it was not created again: %v -> %v", i.ID, o.CfgLate[i.ID], o.CfgLate2[i.ID])))
 				}
 				continue
 			}
-			if l.Err {
-				continue // another field of the component may be the reason
-			}
-			if got, ok := o.CfgLate[x.inst][x.cf.Field]; ok && got != e.Value {
-				oracle := "bound-value-differs"
-				if x.cf.Menu == "sum" || x.cf.Menu == "mul" || x.cf.Menu == "nested" || x.cf.Menu == "sumDef" || x.cf.Menu == "indirect" {
-					oracle = "expression-result-differs"
-				}
-				vs = append(vs, v("C18", oracle, x.inst+"."+x.cf.Field, fmt.Sprintf("lazy component %s was created after Run; %s (%s %v default=%q) holds %q, the menu evaluator gives %q over the configuration of that moment %v", x.inst, x.cf.Field, x.cf.Menu, x.cf.Keys, x.cf.Default, got, e.Value, cfgLate)))
-			}
+			judge(i.ID, t, 2, cfg2, l2, o.CfgLate2[i.ID])
 		}
 	}
 	if o.OK() {
